@@ -13,7 +13,7 @@ from ..sim import MS, US
 PID = "C13"
 O = lambda s: int(s, 8)  # noqa: E731
 
-TOPO = [O(x) for x in ("0", "1", "11", "111", "1111", "2", "22", "222", "2222")]
+TOPO = [O(x) for x in ("0", "1", "11", "111", "1111", "2", "22", "222", "2222", "21")]
 ROUTES = [(O("1"), O("0")), (O("0"), O("2")),  # direct neighbours
           (O("1"), O("2")), (O("0"), O("11")), (O("11"), O("0")),  # 2 hops: across / down / up
           (O("11"), O("2")), (O("11"), O("22")), (O("1111"), O("2222")), (O("2222"), O("11"))]
@@ -21,11 +21,12 @@ TIMEOUTS = ((25, 75), (10, 30), (25, 200))
 _templates = {}
 
 
-def template(cost, tmo):
-    key = (cost, tmo)
+def template(cost, tmo, slow=()):
+    key = (cost, tmo, tuple(slow))
     t = _templates.get(key)
     if t is None:
-        t = N.Net(TOPO, cost_class=cost, horizon=6000 * MS)
+        specs = [({"addr": a, "cost": 300 * US + a} if a in slow else a) for a in TOPO]  # `slow`: MCUs with 300 us per SPI transaction
+        t = N.Net(specs, cost_class=cost, horizon=6000 * MS)
         for n in t.nodes.values():
             n.tx_timeout, n.route_timeout = tmo
         _templates[key] = t
@@ -47,8 +48,14 @@ def run_case(case, chooser=None):
     msg = H.pattern(case["mlen"], case.get("seed", 0), salt=7)
     decided = {}
 
+    delay = case.get("first_hop_delay_ms", 0) * MS  # the first hop is deaf for so long after the call starts
+
     def fault(pkt):
-        if pkt.is_ack or chooser is None:
+        if pkt.is_ack:
+            return False
+        if delay and pkt.src.name == net.radios[src].name and "t0" in obs and pkt.start < obs["t0"] + delay:
+            return True
+        if chooser is None:
             return False
         key = (pkt.src.name, pkt.addr, pkt.payload)
         d = decided.get(key)
@@ -57,8 +64,8 @@ def run_case(case, chooser=None):
             label = "hop:%s:%s" % (pkt.src.name, f["type"] if f else "raw")
             d = decided[key] = bool(chooser.choose(2, label))
         return d
-    w.fault = fault
     obs = {"ret": "unset"}
+    w.fault = fault
 
     def sender(ctx):
         n = net.nodes[src]
@@ -160,7 +167,7 @@ def judge(case, obs, pid=PID):
             surely = [a for a in obs["nack_heard"] if deadline is not None and a <= deadline - 3 * MS]
             if ret is True and not in_time:
                 v.append(("%s/true-without-ack:%s" % (pid, shape), "write() returned True but no NETWORK_ACK reached the origin within route_timeout"))
-            if ret is False and surely and obs["t1"] >= surely[0]:
+            if ret is False and surely:
                 v.append(("%s/false-despite-ack:%s" % (pid, shape), "write() returned False although a NETWORK_ACK reached the origin %.1f ms after acceptance (route_timeout %d ms)" % (
                     (surely[0] - obs["t_accept"]) / 1e6, route_to)))
             if ret is not True and ret is not False:
@@ -181,7 +188,7 @@ def judge(case, obs, pid=PID):
 def run_cross(case, chooser=None):
     """two origins at once: the NETWORK_ACK of the second message is routed THROUGH the first
     origin while that one waits for its own (safety clause only: True => own ACK arrived)"""
-    net = copy.deepcopy(template(case["cost"], tuple(case["tmo"])))
+    net = copy.deepcopy(template(case["cost"], tuple(case["tmo"]), tuple(case.get("slow", ()))))
     net.w.activate()
     H.reset_frame_ids()
     H.set_frame_id(case.get("id0", 0))
@@ -205,7 +212,7 @@ def run_cross(case, chooser=None):
     def script(src, dst, mtype, start):
         def f(ctx):
             n = net.nodes[src]
-            ctx.wait(1 * MS + start * MS)
+            ctx.wait(1 * MS + int(start * MS))
             obs["ret"][src] = n.send(H.RF24NetworkHeader(dst, mtype), H.pattern(5, case.get("seed", 0), src))
             obs["t1"][src] = w.now
             bad = N.listening_violations(n, net.radios[src])
@@ -219,8 +226,11 @@ def run_cross(case, chooser=None):
     air = net.air()
     obs["npkts"] = len(air)
     obs["own_nack"] = {}
+    obs["t_accept"] = {}
     for src, dst, mtype, start in senders:
         sname = net.radios[src].name
+        obs["t_accept"][src] = next((p.end for p in air if p.src.name == sname and not p.is_ack and p.acked
+                                     and (N.parse_frame(p.payload) or {}).get("from") == src and (N.parse_frame(p.payload) or {}).get("type") == mtype), None)
         obs["own_nack"][src] = [p.end for p in air if not p.is_ack and sname in p.heard_by
                                 and (N.parse_frame(p.payload) or {}).get("type") == 193 and N.parse_frame(p.payload)["to"] == src]
     obs["faults"] = [k[0] for k, v in decided.items() if v]
@@ -237,8 +247,19 @@ def judge_cross(case, obs, pid=PID):
         v.append(("%s/exception:%s:%s" % (pid, e.split(":")[0], shape), "node %o raised %s" % (key, e)))
     for src, dst, mtype, start in case["senders"]:
         ret = obs["ret"].get(src)
+        if not (64 < mtype < 192) or len(N.tree_path(src, dst)) - 1 < 2:
+            continue  # only routed ACK-type messages wait for a NETWORK_ACK
         if ret is True and not [a for a in obs["own_nack"][src] if a <= obs["t1"][src]]:
             v.append(("%s/true-without-ack:%s" % (pid, shape), "write() at %o returned True but no NETWORK_ACK addressed to it had reached it (a foreign one was routed through it)" % src))
+        # the origin polls in a tight loop: an own NETWORK_ACK that its radio stored well within the
+        # window must be believed, whatever else arrives behind it
+        route_to = case["tmo"][1]
+        acc = obs["t_accept"].get(src)
+        if ret is False and acc is not None:
+            early = [a for a in obs["own_nack"][src] if a <= acc + (route_to - 8) * MS and a <= obs["t1"][src]]
+            if early:
+                v.append(("%s/false-despite-ack:%s" % (pid, shape), "write() at %o returned False although its NETWORK_ACK reached it %.1f ms after acceptance (route_timeout %d ms)" % (
+                    src, (early[0] - acc) / 1e6, route_to)))
     for key, bad in obs["c07"]:
         v.append(("%s/not-listening:%s" % (pid, bad[0]), "origin %o after write(): %s" % (key, ",".join(bad))))
     return v
@@ -302,11 +323,28 @@ def build_items(tier, seed):
         for t0 in range(0, 256, 8):
             items.append(([dict(src=s, dst=d, mtype=t, mlen=t % 25, tmo=[25, 75], cost=0, lat=0, seed=seed, id0=t * 3) for t in range(t0, t0 + 8)],
                           1 if tier == "quick" else 2))
+    # the route_timeout window starts when the first hop ACCEPTED the frame: sweep route_timeout against
+    # a first hop that only answers after 20 ms (of tx_timeout 25) and slow relays (10 ms poll latency)
+    for (s, d) in ((O("1"), O("2")), (O("11"), O("2"))):
+        for dly in (0, 20):
+            cs = [dict(src=s, dst=d, mtype=66, mlen=4, tmo=[25, rt], cost=0, lat=3, seed=seed, id0=rt, first_hop_delay_ms=dly)
+                  for rt in range(24, 84, 2 if tier == "quick" else 1)]
+            items.append((cs, 0))
     # cross traffic: a foreign NETWORK_ACK is routed through an origin that waits for its own
     for start in (0, 2, 5, 10, 20, 40):
         for first, second in ((O("1"), O("11")), (O("11"), O("1"))):
             items.append(([dict(senders=[[first, O("2"), 66, 0], [second, O("2"), 67, start]], tmo=[25, 75], cost=0, lat=0, seed=seed, id0=start)],
                           1 if tier == "quick" else 2))
+    # ... and a message FOR the waiting origin arrives right behind its NETWORK_ACK (both forwarded by the common relay 0o1)
+    for start in ([0, 1, 2, 3, 4, 5, 6, 8, 10] if tier == "quick" else list(range(0, 16))):
+        for lat in (0, 1, 2):
+            items.append(([dict(senders=[[O("11"), O("2"), 66, 0], [O("21"), O("11"), 5, start]], tmo=[25, 75], cost=0, lat=lat, seed=seed, id0=start + 100)], 0))
+    # (the same with fast relays, 12 us per SPI transaction, and a slow origin, 300 us: both frames are then in the
+    # origin's RX FIFO within one drain; start offsets in steps of 0.5 ms)
+    for lat in (0, 1, 2):
+        cs = [dict(senders=[[O("11"), O("2"), 66, 0], [O("21"), O("11"), 5, h / 2.0]], tmo=[25, 75], cost=1, lat=lat, seed=seed, id0=h + 200, slow=[O("11")])
+              for h in range(0, 30 if tier == "quick" else 60)]
+        items.append((cs, 0))
     # multicasts of ack-range types never cause a NETWORK_ACK
     for lvl in (0, 1, 2):
         items.append(([dict(src=O("1"), dst=O("0"), mtype=t, mlen=3, tmo=[25, 75], cost=0, lat=0, seed=seed, id0=9, multicast=True, multicast_level=lvl)
